@@ -14,6 +14,14 @@ OBLIGATIONS = [NS + t for t in [
     "done_decision", "ls_solver_consistent", "ls_status_trichotomy", "ls_result_valid", "budget_overshoot_le",
     "best_state_is_an_evaluation", "best_state_value", "best_value_nonincreasing", "update_only_on_strict_decrease",
     "nm_status_trichotomy", "nm_budget_overshoot_le", "valueTest_spec", "calls_never_exceed_actual",
+    # the modelled non-monotonic bodies (Model/SolverNM.lean)
+    "modelled_loop_is_nmLoop",
+    "sgm_honest", "sgm_converged_only_by_test", "cocob_honest", "cocob_converged_only_by_test",
+    "pdsgm_honest", "pdsgm_converged_only_by_test",
+    "pgm_honest", "pgm_converged_only_by_test", "dgm_honest", "dgm_converged_only_by_test",
+    "fgm_honest", "fgm_converged_only_by_test",
+    "asga2_honest", "asga2_converged_only_by_test", "asga4_honest", "asga4_converged_only_by_test",
+    "osga_honest", "osga_converged_only_by_test",
 ]]
 TRUSTED = [
     "Lean 4.33.0 kernel + the Mathlib modules imported by Proofs/Solver*.lean and Props/C02.lean",
@@ -22,13 +30,24 @@ TRUSTED = [
     "loop guards, return statements into Gen/DoneLogic.lean)",
     "hand-written model NanoVerif/Model/Solver.lean: shared line-search loop, update_if_better / value_test, generic non-monotonic loop "
     "with the step as an oracle; tied to the code by oracle-replay on the hooks state.update_if_better / lsearch.end / solver.done",
-    "per-solver plumbing (what each of the 35+3 solver bodies hands to update_if_better / done) is NOT modelled: it is the hypothesis of "
-    "the skeleton theorems and is monitored at run time against the wrapper's evaluation log (harness/c01_common.h)",
+    "hand-written model NanoVerif/Model/SolverNM.lean: the iteration bodies of sgm, cocob, sda, wda, pgm, dgm, fgm, asga2, asga4, osga as coded "
+    "(objective = oracle indexed by call number; std::pow / tanh / exp / sqrt / isfinite = parameters of the scalar type); tied to the code by the "
+    "family `solvernm`: the model gets the function's logged answers by position only and must reproduce every evaluation point (relative "
+    "1e-9 of the magnitudes involved; measured <= 1e-13 except osga), every candidate, every done() argument, the counters and the final state",
+    "per-solver plumbing of the OTHER bodies (line-search family directions aside: ellipsoid, rqb, fpba1/2, gs*, penalty, augmented) is NOT "
+    "modelled: it is the hypothesis of the skeleton theorems and is monitored at run time against the wrapper's evaluation log "
+    "(harness/c01_common.h)",
     "tools/props/c02.py generator + oracle, harness/c02.cpp, g++/Eigen",
 ]
 ASSUMPTIONS = [
     "termination of the 35+3 solver bodies is observed (harness time-out), not proved",
-    "the budget clause is a theorem only relative to an explicit per-iteration evaluation bound K (hypothesis); K <= 1100 + 8 dim is measured",
+    "the budget clause is a theorem only relative to an explicit per-iteration evaluation bound K; for the 10 modelled bodies K is proved "
+    "(2 | 2 | 2 | 2·ls | 3·ls | 4·ls | 4·ls | 3 with ls = lsearch_max_iters) and the python oracle demands it sharply; for the others K is a "
+    "hypothesis and K <= 1100 + 8 dim is measured",
+    "osga amplifies rounding differences geometrically: without the optional hook osga.iter (hooks/C02-osga-iter.patch) its evaluation points "
+    "are compared up to the iteration where the deviation exceeds 1e-9 and only gradual growth (<= 1e6 per evaluation) is accepted; with the hook "
+    "every iteration is recomputed from the logged private variables and compared at 1e-9",
+    "lsearch_max_iters >= 1 (registered domains [10,100] / [10,1000]) is a hypothesis of the pgm/dgm/fgm/asga theorems",
     "gradient-sampling solvers draw from an unseeded RNG: the oracle's clauses hold for every draw; a replay re-runs with a new draw, "
     "the model replay always uses the trace of the very run it is compared with",
     "f <= f0 is not demanded of the penalty / augmented-Lagrangian solvers when constraints are present (the start may be infeasible)",
@@ -38,7 +57,10 @@ ASSUMPTIONS = [
 RULE = ("38 solver ids x (benchmark functions smooth / non-smooth / convex / non-convex at 1..32 dims, random convex quadratics, random "
         "piecewise-linear functions, + box / ball / linear constraints for the 3 constrained solvers) x x0 radius 1e-3..10 x eps on a log grid x "
         "max_evals in [10,5000] biased to 10..50 x solver parameters from their domains; a case is non-trivial when the solver took at "
-        "least one iteration (wrapper evaluations > 2); the status reached per solver family is counted in the distribution; distinct by op text")
+        "least one iteration (wrapper evaluations > 2); the status reached per solver family is counted in the distribution; distinct by op text; "
+        "+ family solvernm: the 10 modelled non-monotonic solvers x (random quadratics incl. scales near overflow, random piecewise-linear incl. "
+        "slopes near overflow, benchmark functions, 1..12 dims) x parameters over their whole registered domains (incl. denormal / near-max / "
+        "boundary values) x max_evals 10..400 biased to 10..16 x eps incl. 5e-324 and 1e-1 x x0 radius 0, 1e-3..10, 1e3")
 FLAVOUR = {"quick": "plain", "thorough": "plain"}
 HARNESS_TIMEOUT = 2400
 
@@ -91,8 +113,7 @@ def solver_params(rng, sid):
         if rng.chance(0.4): p.append(("solver::universal::L0", "f", logu(rng, 1e-3, 1e3)))
         if rng.chance(0.6): pat("solver::universal::patience")
     elif sid in GS:
-        if rng.chance(0.3): p.append((f"solver::{sid}::theta_epsilon", "f", rng.uniform(0.05, 1.0)))
-        if rng.chance(0.3): p.append((f"solver::{sid}::epsilon0", "f", logu(rng, 1e-3, 1.0)))
+        p += gs_params(rng, sid, 0.3)
     elif sid in ("rqb", "fpba1", "fpba2"):
         if rng.chance(0.4): p.append((f"solver::{sid}::bundle::max_size", "i", rng.choice([2, 3, 5, 20, 100])))
         if rng.chance(0.3): p.append((f"solver::{sid}::csearch::interpol", "f", rng.uniform(0.05, 0.95)))
@@ -105,6 +126,129 @@ def solver_params(rng, sid):
         if rng.chance(0.4): p.append(("solver::augmented::gamma", "f", rng.uniform(2.0, 20.0)))
         if rng.chance(0.4): p.append(("solver::augmented::max_outer_iters", "i", rng.range(10, 40)))
     return p
+
+
+# ---- the solvers whose iteration body is in the Lean model (family `solvernm`) -------------------------------------------------
+NM_MODELLED = ["sgm", "cocob", "sda", "wda", "pgm", "dgm", "fgm", "asga2", "asga4", "osga"]
+FMAX = 1.7976931348623157e308
+NM_RTOL = 1e-9          # osga: points the model computes vs points the implementation evaluated at, relative to the largest
+                        # magnitude among the start and the points evaluated so far (>= 1)
+NM_RTOL_EXACT = 1e-11   # … the other nine bodies (their recurrences do not amplify; measured <= 1e-12 over 2e4 runs)
+NM_MARGIN = 1e-9        # a decision is compared only when the two sides of its test differ by more than this (relative)
+PATIENCE = {"sgm": "solver::sgm::patience", "cocob": "solver::cocob::patience", "sda": "solver::pdsgm::patience",
+            "wda": "solver::pdsgm::patience", "pgm": "solver::universal::patience", "dgm": "solver::universal::patience",
+            "fgm": "solver::universal::patience", "asga2": "solver::asga::patience", "asga4": "solver::asga::patience",
+            "osga": "solver::osga::patience"}
+
+
+def pos_scalar(rng, lo=1e-12, hi=1e12, top=FMAX, top_open=False):
+    """a scalar parameter with domain (0, top] / (0, top): log-uniform bulk, the extremes of the domain now and then"""
+    c = rng.below(12)
+    if c == 0:
+        return 5e-324 if rng.chance(0.5) else 1e-300
+    if c == 1:
+        return (top * (1.0 - 2.0 ** -53) if top_open else top) if rng.chance(0.5) else top / 1e8
+    if c == 2:
+        return 1.0
+    return logu(rng, lo, hi)
+
+
+def nm_params(rng, sid):
+    """the parameters of a modelled solver, drawn over their whole registered domains"""
+    p = [(PATIENCE[sid], "i", rng.choice([10, 10, 11, 13, 20, 100, 1000, 10 ** 6]))] if rng.chance(0.8) else []
+    if sid == "sgm":
+        if rng.chance(0.8): p.append(("solver::sgm::power", "f", rng.choice([0.5, 1.0]) if rng.chance(0.3) else rng.uniform(0.5, 1.0)))
+    elif sid == "cocob":
+        if rng.chance(0.7): p.append(("solver::cocob::L0-smooth", "f", pos_scalar(rng, 1e-20, 1e6)))
+        if rng.chance(0.7): p.append(("solver::cocob::L0-nonsmooth", "f", pos_scalar(rng, 1e-6, 1e6)))
+    elif sid in ("sda", "wda"):
+        if rng.chance(0.8): p.append(("solver::pdsgm::D", "f", pos_scalar(rng, 1e-8, 1e8)))
+    elif sid in ("pgm", "dgm", "fgm"):
+        if rng.chance(0.8): p.append(("solver::universal::L0", "f", pos_scalar(rng, 1e-8, 1e8, top_open=True)))
+        if rng.chance(0.7): p.append(("solver::universal::lsearch_max_iters", "i", rng.choice([10, 11, 20, 50, 100])))
+    elif sid in ("asga2", "asga4"):
+        if rng.chance(0.8): p.append(("solver::asga::L0", "f", pos_scalar(rng, 1e-8, 1e8, top_open=True)))
+        if rng.chance(0.6): p.append(("solver::asga::gamma1", "f", rng.choice([1.0 + 2.0 ** -52, 1.001, 1e6, 1e300]) if rng.chance(0.3) else 1.0 + logu(rng, 1e-3, 1e2)))
+        if rng.chance(0.6): p.append(("solver::asga::gamma2", "f", rng.choice([5e-324, 1e-6, 1.0 - 2.0 ** -53]) if rng.chance(0.3) else rng.uniform(0.01, 0.999)))
+        if rng.chance(0.7): p.append(("solver::asga::lsearch_max_iters", "i", rng.choice([10, 11, 20, 100, 1000])))
+    elif sid == "osga":
+        if rng.chance(0.7): p.append(("solver::osga::lambda", "f", rng.choice([1e-9, 1.0 - 2.0 ** -53]) if rng.chance(0.2) else rng.uniform(0.01, 0.99)))
+        if rng.chance(0.7): p.append(("solver::osga::alpha_max", "f", rng.choice([1e-9, 1.0 - 2.0 ** -53]) if rng.chance(0.2) else rng.uniform(0.01, 0.99)))
+        if rng.chance(0.5):
+            k1 = logu(rng, 1e-3, 10.0)
+            p.append(("solver::osga::kappas", "p", (k1, k1 * (1.0 if rng.chance(0.3) else rng.uniform(1.0, 20.0)))))
+    return p
+
+
+def gen_nm(rng, tier):
+    """runs of the modelled solvers: parameters over their whole domains, tiny budgets, small dimensions"""
+    ops = []
+    per_solver = 45 if tier == "quick" else 400
+    for k in range(per_solver * len(NM_MODELLED)):
+        sid = NM_MODELLED[k % len(NM_MODELLED)]
+        pick = rng.below(10)
+        n = rng.range(1, 6) if not rng.chance(0.15) else rng.range(7, 12)
+        if pick < 3:
+            # now and then a quadratic so steep that a step overflows: the `isfinite` guards of the bodies are on the path
+            scale = logu(rng, 1e-3, 1e3) if not rng.chance(0.3) else logu(rng, 1e296, 1e304)
+            A, a, _ = c01.random_quadratic(rng, n, logu(rng, 1.0, 1e4), scale)
+            fnspec = c01.quad_spec(A, a)[:-2]
+        elif pick < 6:
+            W, b = random_pwl(rng, n)
+            if rng.chance(0.3):           # slopes near the overflow threshold: a step of order 1 makes the value inf or NaN
+                sc = logu(rng, 1e304, 1e308)
+                W = [[v * sc for v in row] for row in W]
+            fnspec = pwl_spec(W, b)
+        else:
+            fid = rng.choice(ALL_FUNCTIONS)
+            if fid == "rosenbrock" or "+" in fid:
+                n = max(n, 2)
+            if fid == "powell":
+                n = max(4, n - n % 4)
+            fnspec = f"bench {fid} {n} {rng.choice([10, 50])}"
+        fnspec += " 0"
+        eps = c01.eps_grid(rng) if not rng.chance(0.15) else rng.choice([1e-1, 1e-12, 5e-324])
+        c = rng.below(10)
+        max_evals = rng.range(10, 16) if c < 4 else (rng.range(16, 80) if c < 8 else rng.range(80, 400))
+        params = [("solver::epsilon", "f", eps), ("solver::max_evals", "i", max_evals)] + nm_params(rng, sid)
+        radius = logu(rng, 1e-3, 10.0) if not rng.chance(0.1) else rng.choice([0.0, 1e3])
+        x0 = c01.start_point(rng, n, radius)
+        ops.append(c01.make_op("solvernm", sid, "-", "-", params, fnspec, x0))
+    return ops
+
+
+def gs_params(rng, sid, chance):
+    """every registered parameter of the gradient-sampling family (src/solver/gsample.cpp), each over its whole domain"""
+    b = f"solver::{sid}::"
+    p = []
+    if rng.chance(chance): p.append((b + "miu0", "f", rng.choice([0.0, 1e-6, 1.0]) if rng.chance(0.4) else logu(rng, 1e-9, 1e5)))          # [0, 1e6)
+    if rng.chance(chance): p.append((b + "epsilon0", "f", logu(rng, 1e-6, 1e2) if not rng.chance(0.2) else logu(rng, 1e-3, 1.0)))        # (0, 1e6)
+    if rng.chance(chance): p.append((b + "theta_miu", "f", 1.0 if rng.chance(0.3) else rng.uniform(0.01, 1.0)))                           # (0, 1]
+    if rng.chance(chance): p.append((b + "theta_epsilon", "f", 1.0 if rng.chance(0.2) else rng.uniform(0.01, 1.0)))                       # (0, 1]
+    if rng.chance(chance): p.append((b + "lsearch_beta", "f", 0.0 if rng.chance(0.3) else logu(rng, 1e-12, 0.9)))                         # [0, 1)
+    if rng.chance(chance): p.append((b + "lsearch_gamma", "f", rng.uniform(0.02, 0.49) if rng.chance(0.6) else rng.uniform(0.5, 0.98)))   # (0, 1)
+    if rng.chance(chance): p.append((b + "lsearch_perturb_c", "f", 0.0 if rng.chance(0.3) else logu(rng, 1e-10, 0.9)))                    # [0, 1)
+    if rng.chance(chance * 0.5): p.append((b + "lsearch_max_iters", "i", rng.choice([1, 2, 5, 20, 50, 100])))                             # (0, 100]
+    return p
+
+
+def gen_gs(rng, tier):
+    """the gradient-sampling family on small convex quadratics with moderate budgets and every registered parameter drawn: its
+    line search (src/solver/gsample/lsearch.h) moves the state with state.update(), so `returned value <= f(x0)` rests on its
+    step-size bookkeeping for every lsearch_gamma in (0, 1)"""
+    ops = []
+    per_solver = 14 if tier == "quick" else 120
+    ids = sorted(GS)
+    for k in range(per_solver * len(ids)):
+        sid = ids[k % len(ids)]
+        n = rng.choice([1, 1, 2, 3, 4, 8])
+        A, a, _ = c01.random_quadratic(rng, n, logu(rng, 1.0, 1e2), logu(rng, 0.1, 10.0))
+        fnspec = c01.quad_spec(A, a)[:-2] + " 0"
+        max_evals = rng.range(300, 900 if tier == "quick" else 2000)
+        params = [("solver::epsilon", "f", c01.eps_grid(rng)), ("solver::max_evals", "i", max_evals)] + gs_params(rng, sid, 0.8)
+        x0 = c01.start_point(rng, n, logu(rng, 0.5, 10.0))
+        ops.append(c01.make_op("solver2", sid, "-", "-", params, fnspec, x0))
+    return ops
 
 
 def random_pwl(rng, n):
@@ -188,7 +332,7 @@ def gen(rng, tier):
         radius = logu(rng, 1e-3, 10.0)
         x0 = c01.start_point(rng, n, radius)
         ops.append(c01.make_op("solver2", sid, ls0, lsk, params, fnspec, x0))
-    return ops
+    return ops + gen_nm(rng, tier) + gen_gs(rng, tier)
 
 
 # ---------------------------------------------------------------------------------------------------------------------
@@ -263,6 +407,10 @@ def oracle(aug, res):
             if r.fx > r.f0 + allow:
                 return (f"increase: returned value {r.fx!r} is larger than the starting value {r.f0!r}"
                         + (" beyond the CG_DESCENT allowance" if cgdescent else ""))
+    if o.family == "solvernm":
+        why = oracle_nm(o, r, res)
+        if why:
+            return why
     default_cost = not any(any(c in name for c in COST_PARAMS) for name in o.params) and \
         "lsearchk::max_iterations" not in o.params
     if default_cost:
@@ -270,6 +418,78 @@ def oracle(aug, res):
         used = r.max_inner if o.sid in CONSTRAINED else r.units
         if used > bound:
             return f"budget: {used} evaluations performed, max_evals = {o.max_evals} (+1100 + 8*{o.n} = {bound})"
+    return None
+
+
+DBL_MAX = 1.7976931348623157e308
+
+
+def per_iteration_evals(o):
+    """evaluations (value + gradient) of ONE outer iteration of a modelled solver, from the source: the `K` of the statement's
+    "exceeds max_evals by at most one outer iteration's worth" for this solver and these parameters"""
+    if o.sid in ("sgm", "cocob", "sda", "wda"):
+        return 2                                                   # one vgrad(x, g)
+    ls = o.params.get("solver::universal::lsearch_max_iters", 100)
+    if o.sid == "pgm":
+        return 2 * ls                                              # per trial: vgrad(xk1, gxk1)
+    if o.sid == "dgm":
+        return 3 * ls                                              # … + vgrad(yk)
+    if o.sid == "fgm":
+        return 4 * ls                                              # … vgrad(xk1, gxk1) + vgrad(yk1, gyk1)
+    if o.sid in ("asga2", "asga4"):
+        return 4 * o.params.get("solver::asga::lsearch_max_iters", 100)
+    if o.sid == "osga":
+        return 3                                                   # vgrad(x, g) + vgrad(x_prime)
+    return None
+
+
+def oracle_nm(o, r, res):
+    """clauses of the statement that can be evaluated sharply for the solvers whose body is modelled, from the hooks' log alone
+    (independent of the model): every candidate is an evaluation of the function, `converged` is only reported through the
+    documented test, the budget is exceeded by less than one iteration's worth"""
+    try:
+        tr = parse_nm(res, False)
+    except Exception:
+        return "harness: cannot parse the trace part of the result line"
+    # the candidates handed to update_if_better: value recomputed here for the functions the oracle can evaluate
+    if o.kind in ("quad", "pwl"):
+        for fx, _, x in tr.U:
+            if all(math.isfinite(v) for v in x):
+                f = (c01.quad_eval(o.A, o.a, x) if o.kind == "quad" else c01.pwl_eval(o.W, o.b, x))[0]
+                if not same(f, fx):
+                    return f"candidate: update_if_better was handed fx = {fx!r} at a point where f = {f!r}"
+    # the best-state bookkeeping and value_test, replayed on the logged candidates
+    patience = o.params.get(PATIENCE[o.sid], 1000)
+    best_x = list(o.x0); hist = []
+    for fx, mfx, x in tr.U:
+        if math.isfinite(fx):
+            df = mfx - fx
+            dx = max([abs(p - q) for p, q in zip(best_x, x)] + [0.0])
+            if df > 0.0:
+                best_x = list(x)
+            hist.append((df, dx))
+        else:
+            hist.append((-DBL_MAX, -DBL_MAX))
+    if r.status == 1:
+        if not tr.D or tr.D[-1][1] != 1:
+            return "converged: status converged without a done(…, converged = true) call"
+        # value_test(patience) on the complete history (the last done call follows the last update_if_better call)
+        vt = DBL_MAX
+        k = next((i for i, (df, _) in enumerate(reversed(hist)) if df > 0.0), None)
+        if k is None:
+            vt = 0.0 if len(hist) >= patience else DBL_MAX
+        else:
+            vt = max(hist[len(hist) - 1 - k]) if k < patience else 0.0
+        by_value_test = vt < o.eps
+        # the other documented tests: a (sub)gradient below machine precision (sgm, sda, wda, osga), eta < epsilon (osga)
+        other = o.sid == "osga" or (o.sid in ("sgm", "sda", "wda") and len(tr.D) == len(tr.U) + 1)
+        if not by_value_test and not other:
+            return (f"converged: status converged although value_test({patience}) = {vt!r} >= epsilon = {o.eps!r} "
+                    f"after {len(hist)} update_if_better calls")
+    K = per_iteration_evals(o)
+    if K is not None and r.units >= max(o.max_evals, 1) + K and r.units > 2:
+        return (f"budget: {r.units} evaluations performed, max_evals = {o.max_evals}: more than one outer iteration's worth "
+                f"({K}) beyond the budget")
     return None
 
 
@@ -312,7 +532,272 @@ def distribution(ops):
     for sid, status, _ in _seen.values():
         k = f"{family_of(sid)}:{STATUS.get(status, status)}"
         d[k] = d.get(k, 0) + 1
+    # family solvernm: how the model replays went
+    d["solvernm:replayed"] = nm_stats["compared"]
+    d["solvernm:accepted-because-a-decision-was-marginal"] = nm_stats["marginal"]
+    d["solvernm:osga-compared-up-to-amplified-rounding"] = nm_stats["amplified"]
+    d["solvernm:osga-resynchronised-per-iteration(hook osga.iter)"] = nm_stats.get("resync", 0)
+    d["solvernm:max-relative-deviation-of-an-evaluation-point"] = nm_stats["max_dev"]
     return d
+
+
+class NmTrace:
+    pass
+
+
+def parse_nm(text, model):
+    """the part after ` M ` of a `solvernm` result line (implementation) / of the model's line"""
+    t = Toks(text.split(" M ", 1)[1])
+    r = NmTrace()
+    r.status = t.int(); r.x = t.fs(); r.fx = t.f(); r.gx = t.fs(); r.fcalls = t.int(); r.gcalls = t.int()
+    assert t.s() == "Q"
+    r.Q = [t.fs() for _ in range(t.int())]
+    assert t.s() == "U"
+    r.U = [(t.f(), t.f(), t.fs()) for _ in range(t.int())]
+    assert t.s() == "D"
+    r.D = []
+    for _ in range(t.int()):
+        d = (t.int(), t.int(), t.int(), t.int(), t.f())
+        r.D.append(d + ((t.f(),) if model else ()))
+    r.T = []; r.R = None
+    if model:
+        assert t.s() == "T"
+        r.T = [(t.f(), t.f()) for _ in range(t.int())]
+        if not t.done():
+            assert t.s() == "R"
+            r.R = []
+            k = t.int()
+            r.R0 = parse_osga_mem(t)
+            for _ in range(k):
+                x = t.fs(); xp = t.fs(); cx = t.fs(); cf = t.f(); e = t.int(); m1 = parse_osga_mem(t)
+                r.R.append((x, xp, cx, cf, e, m1, [(t.f(), t.f()) for _ in range(t.int())]))
+    return r
+
+
+def parse_osga_mem(t):
+    """alpha eta gamma fb h u xb"""
+    return (t.f(), t.f(), t.f(), t.f(), t.fs(), t.fs(), t.fs())
+
+
+def hook_records(aug):
+    """the records of the optional hook osga.iter at the end of the A line"""
+    tail = aug.rsplit(" H ", 1)
+    if len(tail) != 2:
+        return []
+    t = Toks(tail[1])
+    return [parse_osga_mem(t) for _ in range(t.int())]
+
+
+def nm_header(aug):
+    """the harness part of a solvernm A line up to the start point: sid, n, eps, max_evals, scalar parameters, integer parameters,
+    smooth, strong convexity, epsilon0"""
+    t = Toks(aug.split(" | ", 1)[1])
+    sid = t.s(); n = t.int(); eps = t.f(); me = t.int()
+    assert t.s() == "PF"
+    pf = t.fs()
+    assert t.s() == "PI"
+    pi = [t.int() for _ in range(t.int())]
+    return sid, n, eps, me, pf, pi, t.int(), t.f(), t.f()
+
+
+def eval_log(aug):
+    """the wrapper's log at the end of the A line: [(x, f, g)] in call order"""
+    body = aug.split(" N ", 1)[1].rsplit(" H ", 1)[0]
+    t = Toks(body)
+    out = []
+    for _ in range(t.int()):
+        t.int(); x = t.fs(); f = t.f(); g = t.fs()
+        out.append((x, f, g))
+    return out
+
+
+def close_num(a, b, rtol, scale):
+    return same(a, b) or (math.isfinite(a) and math.isfinite(b) and abs(a - b) <= rtol * max(scale, abs(a), abs(b)))
+
+
+def osga_resync_ok(aug, a, b, eps):
+    """with the hook osga.iter: every iteration recomputed by the model from the LOGGED private variables must produce the two
+    evaluation points, the candidate, and the private variables of the next iteration (NM_RTOL relative to the magnitudes involved
+    in that iteration), and a `converged` flag consistent with the logged one"""
+    H = hook_records(aug)
+    if b.R is None or len(H) != len(b.R):
+        return False
+    evs = eval_log(aug)
+    hd = nm_header(aug)
+    lam, _, kappa_p, _ = hd[4]
+    miu = hd[7] / 2.0
+    fin = lambda vs: [abs(v) for v in vs if math.isfinite(v)]  # noqa: E731
+    # osga.cpp:68-84, the initialisation: the variables logged at the top of the first iteration are the model's `osgaInit`
+    if H:
+        m0 = b.R0; h0 = H[0]
+        sc0 = max([1.0] + fin(list(h0[4]) + list(h0[5]) + list(h0[6])))
+        S0 = max([1.0] + fin([h0[3]]) + [len(h0[4]) * max(fin(h0[4]) + [0.0]) * sc0])
+        if not (same(h0[0], m0[0]) and close_num(h0[1], m0[1], NM_RTOL, max(miu, abs(h0[1]) if math.isfinite(h0[1]) else 0.0))
+                and close_num(h0[2], m0[2], NM_RTOL, S0) and same(h0[3], m0[3]) and close_vec(h0[4], m0[4], NM_RTOL, sc0)
+                and (close_vec(h0[5], m0[5], NM_RTOL, sc0) or not all(math.isfinite(v) for v in list(h0[5]) + list(m0[5])))
+                and close_vec(h0[6], m0[6], NM_RTOL, sc0)):
+            # at the start beta = gamma - fx + h.x0 is 0 in exact arithmetic: the branch of proxy_t::E is ALWAYS decided by rounding
+            # there; the two branches agree to rounding unless h.h overflows (one gives inf, the other inf / inf)
+            if all(math.isfinite(v) for v in [h0[1], m0[1]] + list(h0[5]) + list(m0[5])):
+                nm_stats.setdefault("resync_fail", []).append(-1)
+                return False
+            osga_resync_ok.explained = True
+    for i, (m, rec) in enumerate(zip(H, b.R)):
+        x, xp, cx, cf, e, m1, tests = rec
+        if not x and not xp:           # the stationary-start exit: no evaluation, no candidate
+            if i + 1 != len(H) or len(a.Q) != 2 * i or not (i < len(a.D) and a.D[i][1] == 1):
+                return False
+            continue
+        if 2 * i + 1 >= len(a.Q) or i >= len(a.U) or i >= len(a.D):
+            return i + 1 == len(H) and 2 * i >= len(a.Q)   # the budget ended the run inside… cannot happen: records are per iteration
+        sc = max([1.0] + [abs(v) for v in m[4] + m[5] + m[6] + a.Q[2 * i] + a.Q[2 * i + 1] if math.isfinite(v)])
+        ok = (close_vec(a.Q[2 * i], x, NM_RTOL, sc) and close_vec(a.Q[2 * i + 1], xp, NM_RTOL, sc)
+              and close_vec(a.U[i][2], cx, NM_RTOL, sc) and same(a.U[i][0], cf))
+        # converged = eta_hat < epsilon || value_test < epsilon
+        if e == 1 and a.D[i][1] != 1 and not (abs(m1[1] - eps) <= NM_MARGIN * abs(eps)):
+            ok = False
+        if ok and i + 1 < len(H):
+            n = H[i + 1]
+            nm_stats["resync_dev"] = max(nm_stats.get("resync_dev", 0.0), vec_dev(list(n[4]) + list(n[5]) + list(n[6]), list(m1[4]) + list(m1[5]) + list(m1[6]), sc))
+            # gamma_hat = gamma + alpha (f - miu Q(x) - g.x - gamma) is a difference of numbers of this size:
+            ev = evs[1 + 2 * i] if 1 + 2 * i < len(evs) else ([], 0.0, [])
+            S = max([1.0] + fin([m[2], m[3], ev[1]]) + [len(ev[0]) * max(fin(ev[2]) + [0.0]) * sc])
+            # eta_hat = E - miu loses what E and miu have in common; alpha is multiplied by exp(kappa' (R - 1)) with
+            # R = (eta - eta_hat) / (lambda alpha eta): an error d in eta_hat is an error kappa' d / (lambda alpha |eta|) in log(alpha)
+            s_eta = max(abs(m1[1]), miu) if math.isfinite(m1[1]) else 0.0
+            cond = 1.0
+            if all(math.isfinite(v) for v in (m[0], m[1], m1[1])) and m[0] > 0.0 and m[1] != 0.0:
+                cond += kappa_p * max(abs(m[1]), s_eta) / (lam * m[0] * abs(m[1]))
+            ok = (close_num(n[0], m1[0], NM_RTOL * cond, 0.0) and close_num(n[1], m1[1], NM_RTOL, s_eta) and close_num(n[2], m1[2], NM_RTOL, S)
+                  and same(n[3], m1[3]) and all(close_vec(n[k], m1[k], NM_RTOL, sc) for k in (4, 5, 6)))
+        # the tests on eta_hat inherit its conditioning (eta_hat = E - miu; R divides a difference of etas by lambda alpha eta)
+        def marginal_eta(k, u, v):
+            if not all(math.isfinite(w) for w in (u, v, m[0], m[1])) or k > 2:
+                return False
+            s_e = max(abs(u), miu) if k != 1 else 0.0
+            if k == 1:
+                return m[0] > 0.0 and m[1] != 0.0 and abs(u - v) <= NM_RTOL * max(abs(m[1]), abs(m1[1]), miu) / (lam * m[0] * abs(m[1]))
+            return abs(u - v) <= NM_RTOL * s_e
+        if not ok and (any(marginal_pair(u, v) for u, v in tests) or any(marginal_eta(k, u, v) for k, (u, v) in enumerate(tests))):
+            # eta_hat < epsilon, R < 1, eta_hat < eta, or the branch of proxy_t::E was decided by rounding in this iteration
+            nm_stats["marginal_iterations"] = nm_stats.get("marginal_iterations", 0) + 1
+            osga_resync_ok.explained = True
+            continue
+        if not ok:
+            nm_stats.setdefault("resync_fail", []).append(i)
+            return False
+    return True
+
+
+def close_vec(a, b, rtol, scale=1.0):
+    if len(a) != len(b):
+        return False
+    scale = max([1.0, scale] + [abs(v) for v in a if math.isfinite(v)])
+    for p, q in zip(a, b):
+        if same(p, q):
+            continue
+        if not (math.isfinite(p) and math.isfinite(q)) or abs(p - q) > rtol * scale:
+            return False
+    return True
+
+
+nm_stats = {"max_dev": 0.0, "marginal": 0, "compared": 0, "amplified": 0}
+NM_GROWTH = 1e6         # osga only, see osga_prefix_ok
+
+
+def marginal_pair(u, v):
+    return math.isfinite(u) and math.isfinite(v) and abs(u - v) <= NM_MARGIN * max(abs(u), abs(v))
+
+
+def osga_prefix_ok(a, b, scales, growth=None):
+    """osga's recurrence (u = z0 - h / E, eta -> 0) amplifies rounding differences geometrically (measured: x2..x10 per iteration,
+    up to 1e-3 after 20..100 iterations, with every decision and every function value still identical). Without a trace of its
+    internal variables the model cannot be re-synchronised, so: the deviation of the evaluation points may exceed NM_RTOL only
+    by gradual growth (each point at most NM_GROWTH times the largest deviation before it: a discrepancy of the formulas shows as
+    a jump from the 1e-16 level), and everything up to the iteration where it does must agree as for the other solvers"""
+    if len(a.Q) != len(b.Q) and min(len(a.Q), len(b.Q)) < 2:
+        return False
+    devs = [vec_dev(p, q, s) if len(p) == len(q) else 1.0 for p, q, s in zip(a.Q, b.Q, scales)]
+    first = next((k for k, d in enumerate(devs) if d > NM_RTOL), None)
+    if first is None or first < 4:
+        return False
+    top = 1e-15
+    for d in devs[:first + 1]:
+        if d > (NM_GROWTH if growth is None else growth) * top:
+            return False
+        top = max(top, d)
+    it = first // 2        # two evaluations, one update_if_better, one done per iteration
+    if len(a.U) < it or len(b.U) < it or len(a.D) < it or len(b.D) < it:
+        return False
+    return (all(same(u[0], v[0]) and same(u[1], v[1]) for u, v in zip(a.U[:it], b.U[:it]))
+            and all(u[:4] == v[:4] and same(u[4], v[4]) for u, v in zip(a.D[:it], b.D[:it])))
+
+
+
+def vec_dev(a, b, scale=1.0):
+    scale = max([1.0, scale] + [abs(v) for v in a if math.isfinite(v)])
+    return max([abs(p - q) / scale for p, q in zip(a, b) if math.isfinite(p) and math.isfinite(q)] + [0.0])
+
+
+def compare_nm(aug, impl, model):
+    """the model was given the function's answers by position only: the points it evaluated at, the candidates it handed to
+    update_if_better, the arguments of every done call, the counters and the final state must be the implementation's"""
+    try:
+        a = parse_nm(impl, False); b = parse_nm(model, True)
+    except Exception:
+        return False
+    o = c01.parse_op(aug)
+    eps = o.eps
+    NM_RTOL = globals()["NM_RTOL"] if o.sid == "osga" else NM_RTOL_EXACT
+    # the scale of the recurrence up to each evaluation: the largest magnitude among the start and the points evaluated so far
+    # (a point may be a small difference of large accumulated terms)
+    scales = []; sc = max([1.0] + [abs(v) for v in o.x0])
+    for p in a.Q:
+        sc = max([sc] + [abs(v) for v in p if math.isfinite(v)]); scales.append(sc)
+    ok = (a.status == b.status and same(a.fx, b.fx) and len(a.gx) == len(b.gx) and all(same(p, q) for p, q in zip(a.gx, b.gx))
+          and a.fcalls == b.fcalls and a.gcalls == b.gcalls and close_vec(a.x, b.x, NM_RTOL, sc)
+          and len(a.Q) == len(b.Q) and all(close_vec(p, q, NM_RTOL, s) for p, q, s in zip(a.Q, b.Q, scales))
+          and len(a.U) == len(b.U)
+          and all(same(u[0], v[0]) and same(u[1], v[1]) and close_vec(u[2], v[2], NM_RTOL, sc) for u, v in zip(a.U, b.U))
+          and len(a.D) == len(b.D)
+          and all(u[0] == v[0] and u[1] == v[1] and u[2] == v[2] and u[3] == v[3] and same(u[4], v[4]) for u, v in zip(a.D, b.D)))
+    nm_stats["compared"] += 1
+    if o.sid == "osga" and hook_records(aug):
+        # strict per-iteration comparison; the whole-run replay then only has to agree up to where amplified rounding sets in
+        nm_stats["resync"] = nm_stats.get("resync", 0) + 1
+        marg = any(marginal_pair(u, v) for u, v in b.T)
+        osga_resync_ok.explained = False
+        if not osga_resync_ok(aug, a, b, eps):
+            return False
+        # the whole-run replay may leave the implementation's path where a decision was decided by rounding, or where the
+        # variables stopped being finite (overflow depends on the order of the reductions): every iteration has been checked above
+        H = hook_records(aug)
+        marg = marg or osga_resync_ok.explained or any(not math.isfinite(v) for m in H for v in m[:4])
+        if not ok:
+            if osga_prefix_ok(a, b, scales, growth=float("inf")):
+                nm_stats["amplified"] += 1
+                return True
+            if marg:
+                nm_stats["marginal"] += 1
+                return True
+            return False
+    elif not ok and o.sid == "osga":
+        ok = osga_prefix_ok(a, b, scales)
+        if ok:
+            nm_stats["amplified"] += 1
+            return True
+    if ok:
+        for p, q, s in zip(a.Q, b.Q, scales):
+            nm_stats["max_dev"] = max(nm_stats["max_dev"], vec_dev(p, q, s))
+        return True
+    # a decision whose two sides agree to NM_MARGIN may legitimately fall the other way in the model (its points differ from the
+    # implementation's by rounding): value_test(patience) < epsilon, and the acceptance tests of the inner line searches
+    def marginal(u, v):
+        return math.isfinite(u) and math.isfinite(v) and abs(u - v) <= NM_MARGIN * max(abs(u), abs(v))
+    if any(marginal(d[5], eps) for d in b.D) or any(marginal(u, v) for u, v in b.T):
+        nm_stats["marginal"] += 1
+        return True
+    return False
 
 
 def compare(aug, impl, model):
@@ -320,6 +805,8 @@ def compare(aug, impl, model):
     every done call — recomputed by the model from the logged oracle answers, exact comparison"""
     if " M " not in impl or " M " not in model:
         return False
+    if aug.startswith("solvernm "):
+        return compare_nm(aug, impl, model)
     a = impl.split(" M ", 1)[1].split()
     b = model.split(" M ", 1)[1].split()
     if len(b) > 1 and b[1] == "-":
